@@ -3,9 +3,10 @@
    directions) and by model-vs-implementation correspondence; proved here: stem-prefix implies
    string-prefix of the serialized LRUs (the '|' terminator after every stem), and the cleaning
    of empty path stems distributes over concatenation. *)
+From Coq Require Import String.
 From Coq Require Import List NArith.
 Import ListNotations.
-From UV Require Import Py.Val Py.Str Ural.Lru Proofs.LruFacts.
+From UV Require Import Py.Val Py.Str Py.UrlLib Ural.SuffixTrie Ural.Lru Proofs.LruFacts.
 
 (* if the stems of u are a prefix of the stems of v, the serialized LRU of u is a string prefix
    of that of v *)
@@ -19,6 +20,28 @@ Proof. exact clean_app. Qed.
 Theorem C13_clean_idem : forall s, clean_trailing_path (clean_trailing_path s) = clean_trailing_path s.
 Proof. exact clean_idem. Qed.
 
+(* a page below an ancestor on the same site: the ancestor's stems are a prefix of the page's stems, for
+   every suffix trie and both settings of suffix_aware.  "Ancestor" = same scheme and netloc, no userinfo
+   (no '@' in the netloc), no query, no fragment, and a path that is a whole-segment prefix of the page's *)
+Theorem C13_descendant_extends_stems : forall (t : snode) (sa : bool) (r1 r2 : SplitResult) (more : str),
+  scheme r2 = scheme r1 -> netloc r2 = netloc r1 ->
+  rcut [64%N] (netloc r1) = None ->
+  query r1 = [] -> fragment r1 = [] ->
+  path r2 = path r1 ++ 47%N :: more ->
+  exists ext, lru_stems_from_parsed t r2 sa = lru_stems_from_parsed t r1 sa ++ ext.
+Proof. exact stems_of_descendant. Qed.
+
+(* the hypotheses are satisfiable: http://x.com/a and http://x.com/a/b?q=1 *)
+Local Open Scope string_scope.
+Local Open Scope list_scope.
+Example C13_descendant_example :
+  let r1 := {| scheme := lit "http"; netloc := lit "x.com"; path := lit "/a"; query := []; fragment := [] |} in
+  let r2 := {| scheme := lit "http"; netloc := lit "x.com"; path := lit "/a/b"; query := lit "q=1"; fragment := [] |} in
+  rcut [64%N] (netloc r1) = None /\ path r2 = path r1 ++ 47%N :: lit "b" /\
+  lru_stems_from_parsed sempty r2 false = lru_stems_from_parsed sempty r1 false ++ [lit "p:b"; lit "q:q=1"].
+Proof. vm_compute. repeat split. Qed.
+
 Print Assumptions C13_stem_prefix_is_string_prefix.
+Print Assumptions C13_descendant_extends_stems.
 Print Assumptions C13_clean_app.
 Print Assumptions C13_clean_idem.
